@@ -5,8 +5,8 @@ from props import judges
 from props.common import TRUSTED_BASE, ASSUMPTIONS
 
 ID = "C08"
-LEAN_MODULES = ["LexVerif.Props.C08", "LexVerif.Props.C03", "LexVerif.Props.C04", "LexVerif.Props.RoundNE"]
-GEN = []
+LEAN_MODULES = ["LexVerif.Props.C08", "LexVerif.Props.C03", "LexVerif.Props.C04", "LexVerif.Props.RoundNE", "LexVerif.Props.Literals.WriteFloatWrite", "LexVerif.Props.Literals.WriteFloatShared", "LexVerif.Props.Literals.ParseFloatParse", "LexVerif.Props.Literals.ParseIntegerAlgorithm", "LexVerif.Props.Literals.WriteIntegerApi", "LexVerif.Props.Literals.CoreLib"]
+GEN = ["literals"]
 TRUSTED = TRUSTED_BASE + [
     "the round trip is composed from separately proved halves (C03 writer = numeral, C04 parser = exact scan; oracle exactness) only for plain formats; for flagged formats "
     "and floats it is measured: the implementation's own parser is run on the implementation's own output",
